@@ -1,6 +1,7 @@
 (* C04 — circuit optimisations never change the computed function.
    (property theorems are added below as the proofs in Builder/*Proofs.v land) *)
-From GV Require Import Base.Util Base.NMap Circuit.Ssa Builder.Builder Builder.Build.
+From GV Require Import Base.Util Base.NMap Circuit.Ssa Builder.Builder Builder.Build
+  Builder.BuilderSem Builder.BuilderSpec Builder.BuilderProofs.
 
 (* sanity: the model really rewrites — (a&b) ^ (a&c) becomes a & (b^c) *)
 Theorem C04_model_rewrites_example :
@@ -19,3 +20,30 @@ Theorem C04_model_rewrites_example :
   end.
 Proof. vm_compute. split; reflexivity. Qed.
 Print Assumptions C04_model_rewrites_example.
+
+(* Every wire handed back by a builder request denotes the requested Boolean function of its
+   operands -- for every builder state reachable by any request sequence ([inv] holds for
+   [new_builder] and is preserved by every request), with gate de-duplication on or off
+   ([b_dedup] is arbitrary), whatever fold, cache hit or algebraic rewrite fired; wires
+   handed out earlier keep their meaning ([ext]); the explicit recursion fuel of the model
+   never runs out and the model never crashes on valid wires (the result is [Ok]). *)
+Theorem C04_requests_sound : builder_ops_sound inv.
+Proof. exact builder_sound. Qed.
+Print Assumptions C04_requests_sound.
+
+(* the two primitive requests, spelled out *)
+Theorem C04_push_xor : forall b x y, inv b -> valid b x -> valid b y ->
+  exists r b', push_xor_top b x y = Ok (r, b') /\ inv b' /\ ext b b' /\ valid b' r /\
+    forall inp, ins_ok b inp -> den inp b' r = xorb (den inp b x) (den inp b y).
+Proof. exact push_xor_top_sound. Qed.
+Print Assumptions C04_push_xor.
+
+Theorem C04_push_and : forall b x y, inv b -> valid b x -> valid b y ->
+  exists r b', push_and_top b x y = Ok (r, b') /\ inv b' /\ ext b b' /\ valid b' r /\
+    forall inp, ins_ok b inp -> den inp b' r = andb (den inp b x) (den inp b y).
+Proof. exact push_and_top_sound. Qed.
+Print Assumptions C04_push_and.
+
+Theorem C04_new_builder_inv : forall dedup inputs, inv (new_builder dedup inputs).
+Proof. exact inv_new. Qed.
+Print Assumptions C04_new_builder_inv.
